@@ -47,9 +47,9 @@ func TestVerifC03(t *testing.T) {
 	for _, c := range vbC03Corpus {
 		vbC03Case(t, out, "c03-corpus-"+c.name, "[[interfaces]]\nname = \"eth0\"\nadvertise = true\n"+c.toml)
 	}
-	n := 2500
+	n := 2000
 	if verifh.Thorough() {
-		n = 40000
+		n = 30000
 	}
 	for i := 0; i < n; i++ {
 		vbC03Case(t, out, fmt.Sprintf("c03-%d", i), "")
